@@ -109,7 +109,7 @@ func (x *Xlat) stdlib(st *State, fr *Frame, out *Outcomes, ce *ast.CallExpr, rec
 		s := x.ctx.Define("rv", arg(0))
 		et := types.Unalias(info.TypeOf(ce.Args[0])).Underlying().(*types.Slice).Elem()
 		es := x.tm.SortOf(et)
-		key := elemsKey(es)
+		key := x.tm.ElemsKey(et)
 		h := x.get(st, key, elemsSort(es))
 		res := x.ctx.Fresh("arrv", ArrSort(SInt, es))
 		i := Const("i!", SInt)
@@ -125,7 +125,7 @@ func (x *Xlat) stdlib(st *State, fr *Frame, out *Outcomes, ce *ast.CallExpr, rec
 		s := x.ctx.Define("srt", arg(0))
 		et := types.Unalias(info.TypeOf(ce.Args[0])).Underlying().(*types.Slice).Elem()
 		es := x.tm.SortOf(et)
-		key := elemsKey(es)
+		key := x.tm.ElemsKey(et)
 		h := x.get(st, key, elemsSort(es))
 		res := x.ctx.Fresh("arrv", ArrSort(SInt, es))
 		perm := x.ctx.Fresh("perm", ArrSort(SInt, SInt))
@@ -212,7 +212,7 @@ func itoa(n int64) string {
 // cloneSlice returns a slice over a fresh array holding the live elements of s, with capacity >= mincap.
 func (x *Xlat) cloneSlice(st *State, s *Term, et types.Type, mincap *Term) *Term {
 	es := x.tm.SortOf(et)
-	key := elemsKey(es)
+	key := x.tm.ElemsKey(et)
 	h := x.get(st, key, elemsSort(es))
 	a := x.allocArr(st)
 	fresh := x.ctx.Fresh("arrv", ArrSort(SInt, es))
